@@ -446,6 +446,30 @@ def r_leg_eq_search(ck: Checker, rule: str = "R-LEG-IDENT") -> None:
     ck.holds(rule, (m_.rel, f"{CLS}.*"), None, "no method of the legacy node class looks a node up among nodes by equality (index / remove / count / `in` over a sequence of nodes)", evaluations=n)
 
 
+def r_leg_pop_as_test(ck: Checker) -> None:
+    """Legacy ids are not unique among objects (a detached clone has the id of the attached original).  What `_nodes.pop(X.id, None)` /
+    `_nodes.get(X.id)` returns says whether *some* node is registered under that id, not whether X is: using the result as "X was
+    attached" unregisters / misjudges an unrelated node (positive pattern: the result of a pop keyed by a node's id is used as a value)."""
+    from .state_rules import _raw_functions
+    m_ = ck.repo.mod(LNODE)
+    n = 0
+    for q, fn, _cls in _raw_functions(m_):
+        parent = {id(c): p_ for p_ in ast.walk(fn) for c in ast.iter_child_nodes(p_)}
+        for x in ast.walk(fn):
+            if isinstance(x, ast.Call) and isinstance(x.func, ast.Attribute) and x.func.attr == "pop" and norm(x.func.value).endswith("_nodes") and x.args \
+                    and isinstance(x.args[0], ast.Attribute) and x.args[0].attr == "id":
+                n += 1
+                used = not isinstance(parent.get(id(x)), ast.Expr)
+                what = f"{q}: whether a node is attached is read from the node (`detached`), not from what the registry holds under its id"
+                if used:
+                    ck.violation("R-LEG-IDENT", (m_.rel, q), x, what, positive=True,
+                                 construct=f"{q}: the result of {norm(x)[:50]} is used as a value — another node registered under the same id (a detached clone's original) is removed and taken for this one")
+                else:
+                    ck.holds("R-LEG-IDENT", (m_.rel, q), x, what)
+    if n == 0:
+        ck.holds("R-LEG-IDENT", (m_.rel, "*"), None, "no registry pop keyed by a node's id in the legacy node module")
+
+
 def r_leg_rekey(ck: Checker) -> None:
     """Children name their parent by *id*: when the id of an existing node V is rewritten, the children of V must be pointed at the
     new id (V._attach / V.attach / V._attach_inner do it, or an explicit loop) on every path that completes normally."""
@@ -583,6 +607,7 @@ def run(ck: Checker) -> None:
     ck.guard("R-LEG-LINK", lambda: r_leg_swap_uncond(ck))
     ck.guard("R-LEG-LINK", lambda: r_leg_release_uncond(ck))
     ck.guard("R-LEG-IDENT", lambda: r_leg_eq_search(ck))
+    ck.guard("R-LEG-IDENT", lambda: r_leg_pop_as_test(ck))
     from . import state_rules as S_c
     ck.guard("R-LEG-LINK", lambda: S_c.r_class_attr_cache(ck, "R-LEG-LINK", (LNODE,)))
     from . import state_rules as S_
